@@ -10,8 +10,8 @@ ATOMS = ['0', '1', '2', '3', '7', '10', '255', '10**20', '0x10', '1_000', '1.5',
          'b"it\'s"', 'None', 'True', 'False', '...', 'G0', 'G1', 'G2', 'G4', '()', '[]', '{}', "''", 'G3', '1j', '2.5j']
 NUM_ATOMS = ['0', '1', '2', '3', '7', '10', '255', '1.5', '2.0', '.5', 'G2', 'G4', 'True', '10**3', '0x10']
 INT_ATOMS = ['0', '1', '2', '3', '7', '10', '255', 'G2', '0x10', '6']
-BINOPS = ['+', '-', '*', '/', '//', '%', '**']
-INTOPS = ['<<', '>>', '&', '|', '^']
+BINOPS = ['+', '-', '*', '/', '//', '%']
+INTOPS = ['>>', '&', '|', '^']
 CMPOPS = ['<', '<=', '==', '!=', '>', '>=', 'is', 'is not', 'in', 'not in']
 
 
@@ -25,8 +25,13 @@ class ExprGen:
         r = rng.random()
         if d <= 0 or r < .3:
             return rng.choice(NUM_ATOMS)
-        if r < .6:
+        if r < .52:
             return '(%s %s %s)' % (self.num(d - 1), rng.choice(BINOPS), self.num(d - 1))
+        if r < .6:
+            # powers only with small operands (an unbounded ** can take forever to evaluate)
+            base = rng.choice(['2', '3', '(-2)', '(-(3))', '1.5', '(1 + 1)', 'G2', '(2 ** 2)', '(-1.5)', '(+2)', '(~1)'])
+            exp = rng.choice(['2', '3', '(-1)', '(1 + 1)', '(2 ** 2)', '0.5', '(-(2))'])
+            return '(%s ** %s)' % (base, exp)
         if r < .72:
             return '(%s(%s))' % (rng.choice(['-', '+', '-']), self.num(d - 1))
         if r < .8:
@@ -46,7 +51,7 @@ class ExprGen:
             return '(%s %s %s)' % (self.integer(d - 1), rng.choice(['+', '-', '*', '//', '%'] + INTOPS), self.integer(d - 1))
         if r < .8:
             return '(%s(%s))' % (rng.choice('-~+'), self.integer(d - 1))
-        return '(%s ** %s)' % (self.integer(d - 1), rng.choice(['2', '3', '(1 + 1)']))
+        return '(%s ** %s)' % (rng.choice(['2', '3', '(-2)', '(1 + 2)', '(~1)', '7']), rng.choice(['2', '3', '(1 + 1)']))
 
     def boolean(self, d):
         rng = self.rng
@@ -57,7 +62,7 @@ class ExprGen:
             n = rng.choice([2, 2, 3])
             parts = [self.num(d - 1)]
             for _ in range(n - 1):
-                op = rng.choice(CMPOPS[:8])
+                op = rng.choice(CMPOPS[:6])
                 parts += [op, self.num(d - 1)]
             return '(%s)' % ' '.join(parts)
         if r < .6:
